@@ -16,8 +16,11 @@ Variable perm : nat -> bytes -> bytes.
 (* ---- ASCON-PRF --------------------------------------------------------- *)
 (* S = p(IV(L) || K || 0^128); absorb 256-bit blocks of M || 1 || 0.. with p
    between them; flip the last state bit; squeeze 128-bit blocks, p before each *)
+(* IV = k (128) || r_out (128) || 1||a (0x8c) || 0^8 || t (32-bit output bit
+   length; 0 for arbitrary length, also used for L >= 2^29) *)
+Definition prf_len (L : N) : N := if (536870912 <=? L)%N then 0%N else L.
 Definition prf_state (K : bytes) (L : N) : bytes :=
-  perm 0 (be_encode 8 (iv_word vprf L) ++ K ++ zeros 16).
+  perm 0 ([0x80; 0x80; 0x8c; 0x00]%N ++ be_encode 4 (prf_len L * 8) ++ K ++ zeros 16).
 Definition prf (K : bytes) (L : N) (msg : bytes) (n : nat) : bytes :=
   spec_squeeze (perm 0) 16 (absorb_msg perm vprf (prf_state K L) msg) n.
 Definition mac (K msg : bytes) : bytes := prf K 16 msg 16.
